@@ -117,3 +117,8 @@ package casblob
 //@   call Seek#0 asserts[C20] tablepos: arg1 == 29 && arg2 == 0
 //@   call Write#2 asserts[C08,C20] table: bwN == old(bwN) + 7 && arg0 == iface(f) && isLE(arg1) && tagof(arg2) == typetag("[]int64") && arr(as(arg2, "[]int64")) == arr(h.chunkOffsets) && len(as(arg2, "[]int64")) == len(h.chunkOffsets)
 //@   call Sync#0 asserts[C08] aftertable: bwN == old(bwN) + 8
+
+// readHeader validates the chunk table as it was read from the file: it never writes a table
+// element itself (decided on the SSA), so wfHeader speaks about the stored table (C08: a file whose
+// table was never finalised is rejected, not repaired).
+//@ nostore[C08,C02,C20] readHeader:chunkOffsets
